@@ -142,11 +142,22 @@ theorem finding_C18_torn_table_metadata :
 
 /-- Finding `C18/torn-merge`: MERGE killed between its UPDATE and its INSERT: matched rows updated, unmatched not inserted. -/
 theorem finding_C18_torn_merge :
-    (dump (tornAt [.mkTable 0, .rows 0 (.ins 1 1)] [] (.auto (.merge 0 [(1, 10), (2, 20)])) 5)).tables
+    (dump (tornAt [.mkTable 0, .rows 0 (.ins 1 1)] [] (.auto (.merge 0 [(1, 10), (2, 20)])) 4)).tables
       = [⟨0, none, none, [(1, 10)]⟩] ∧
     (dump ([.mkTable 0, .rows 0 (.ins 1 1)] ++ (TxUnit.auto (.merge 0 [(1, 10), (2, 20)])).eff)).tables
       = [⟨0, none, none, [(1, 10), (2, 20)]⟩] := by
   decide
+
+/-- Regression witness for repair 0e75b9f (`C13/merge-commit-conflict-on-bogus-comment`): MERGE used to make one more
+    durable call – an upsert of the key `(db, schema, 'MERGE_CANDIDATES')` in `_fs_tables_ext`, the same key for every
+    MERGE of every session (so two overlapping transactions containing a MERGE conflicted at COMMIT); the repaired
+    decomposition writes the target table only. -/
+theorem C18_merge_no_bookkeeping_write (t : Nat) (src : List (Nat × Nat)) :
+    Eff.junkComment ∈ (mergeCallsOld t src).filterMap wOf ∧
+    effs (.merge t src) = [.rows t (.mergeUpd src), .rows t (.mergeIns src)] := by
+  constructor
+  · simp [mergeCallsOld, List.filterMap_cons, wOf]
+  · simp [effs, calls, List.filterMap_cons, wOf]
 
 theorem C18_stmt_atomic_full_false : ¬ C18_stmt_atomic_Full := by
   intro h
